@@ -112,7 +112,7 @@ def run(ck):
             ck.finding('C13.R2', ln.key, f"len:{vn}", f"Extension::len for {vn} is not data length + 2")
     ck.rule('C13.R2 variants of Extension::len', nl, 6)
     # ------------------------------------------------------------------ R3 lengths of encap_ext (C06 instances)
-    c06.run(ck, writers=('encap_ext',), pid_rules='C13.R3')
+    c06.run(ck, writers=('encap_ext',), pid_rules='C13.R3', floors=(8, 4, 20))
     # ------------------------------------------------------------------ R4 only decodable combinations are accepted
     wa = analyse_writer(ck, ENC + 'encap_ext', extra=c09.ENCCFG)
     env = writer_env(ck, wa, 'encap_ext')
